@@ -25,7 +25,7 @@ HASH=$( { echo "$VARIANT $FLAGS $DEFS";
           cat "$REPO"/src/*.c "$REPO"/src/*.h "$REPO"/src/internal/*.h "$REPO"/uthash/*.h "$REPO"/config.h "$REPO"/misc/cif_schema.sql \
               "$HERE"/cifrun.cc "$HERE"/json.hh "$HERE"/fault.c 2>/dev/null || true; } | sha256sum | cut -c1-24 )
 OUT="$CACHE/$VARIANT-$HASH"
-if [ -x "$OUT/cifrun" ]; then echo "$OUT/cifrun"; exit 0; fi
+if [ -x "$OUT/cifrun" ]; then touch "$OUT" 2>/dev/null || true; echo "$OUT/cifrun"; exit 0; fi
 
 TMP="$OUT.tmp.$$"
 rm -rf "$TMP"; mkdir -p "$TMP"
@@ -55,6 +55,6 @@ $CXX $FLAGS $EXTRA -o "$TMP/cifrun" "$TMP/cifrun.o" $OBJS -lsqlite3 -licuio -lic
   || { cat "$TMP/link.err" >&2; rm -rf "$TMP"; echo "LINK FAILED" >&2; exit 3; }
 rm -f "$TMP"/*.err
 mv "$TMP" "$OUT" 2>/dev/null || rm -rf "$TMP"
-# keep the cache small: the 6 most recent builds
-ls -1dt "$CACHE"/*-* 2>/dev/null | tail -n +7 | xargs -r rm -rf
+# keep the cache small: the 40 most recent builds
+ls -1dt "$CACHE"/*-* 2>/dev/null | tail -n +41 | xargs -r rm -rf
 echo "$OUT/cifrun"
